@@ -822,6 +822,11 @@ done:
 		case Descent:
 			di, _ := stack[len(stack)-1].(fragIndex)
 			// first pass expands, second continues evaluation
+			if (di & descentFlag) != 0 {
+				// Second pass for this element. Clear the flag on the fragment index
+				// shared with the siblings still on the stack so they get expanded too.
+				stack[len(stack)-1] = di &^ descentFlag
+			}
 			if (di & descentFlag) == 0 {
 				switch tv := prev.(type) {
 				case map[string]any:
